@@ -246,6 +246,20 @@ func gen(t *tl.T) {
 		return true
 	})
 
+	// parseValue: `if len(s.Value) > 1 { box.UnquotedString = s; return box }` before the keyword / number tests
+	pvf, ok := funcs["parseValue"]
+	if !ok {
+		t.Fail("parseValue not found")
+	}
+	substGuard := false
+	ast.Inspect(pvf.Body, func(n ast.Node) bool {
+		is, ok := n.(*ast.IfStmt)
+		if ok && t.Src(is.Cond) == "len(s.Value) > 1" {
+			substGuard = true
+		}
+		return true
+	})
+
 	consts := map[string][]rune{}
 	for _, name := range []string{"UnquotedKeySpecials", "UnquotedValueSpecials"} {
 		e := t.Var("d2ast/d2ast.go", name)
@@ -292,6 +306,8 @@ func gen(t *tl.T) {
 	t.P("def unquotedValueSpecials : List Char := %s\n\n", chars(consts["UnquotedValueSpecials"]))
 	t.P("/-- parseArray's deferred `Range.End.From(&p.pos)` (true) or `&p.readerPos` (false) -/\ndef arrayEndPos : Bool := %v\n", endField == "pos")
 	t.P("/-- parseUnquotedString resets lastPatternIndex when it resets sb -/\ndef patReset : Bool := %v\n\n", patReset)
+	t.P("/-- parseValue keeps an unquoted string with more than one interpolation box as a string (no keyword / number test) -/\ndef valueSubstGuard : Bool := %v\n\n", substGuard)
+	t.Fact("ParserSites.valueSubstGuard=%v", substGuard)
 	t.Fact("ParserSites.arrayEnd=p.%s", endField)
 	t.Fact("ParserSites.patReset=%v", patReset)
 	t.P("end D2V.Gen.ParserSites\n")
